@@ -165,6 +165,24 @@ def run_rows(case, ctx):
                     if extra_:
                         Q = numpy.vstack([Q] + [numpy.array(extra_)])
                         n = nrows(Q)
+                exact_l1 = spec.name == "KMeansL1L2" and getattr(est, "norm", None) == "L1"
+                if exact_l1 and isinstance(Q, numpy.ndarray) and Q.ndim == 2 and hasattr(est, "cluster_centers_"):
+                    # rows at EXACTLY the same Manhattan distance from two centres (sums of absolute differences are
+                    # computed row by row, an exact tie is an exact tie in every batch): midpoints of pairs of centres,
+                    # kept when the two distances are equal to the last bit and no other centre is nearer
+                    C_ = numpy.asarray(est.cluster_centers_, dtype=float)
+                    ties_ = []
+                    for i_ in range(len(C_)):
+                        for j_ in range(i_ + 1, len(C_)):
+                            for lam in (0.5,):
+                                m_ = (C_[i_] + C_[j_]) * lam
+                                d_ = numpy.abs(C_ - m_).sum(axis=1)
+                                if d_[i_] == d_[j_] and d_[i_] <= d_.min():
+                                    ties_.append(m_)
+                    if ties_:
+                        Q = numpy.vstack([Q] + [numpy.array(ties_[:4]).astype(Q.dtype)] * 2)
+                        n = nrows(Q)
+                        ctx.hit("rows.exact_ties", len(ties_))
                 if n >= 3:
                     Q = take(Q, list(range(n)) + [0, 1, 1])   # exact duplicates
                     n = nrows(Q)
@@ -190,7 +208,7 @@ def run_rows(case, ctx):
                     def judge(i, got_row, how):
                         if row_equal(full[i], got_row, integer):
                             return True
-                        if integer and marg is not None and marg[i] < 1e-9:
+                        if integer and marg is not None and marg[i] < 1e-9 and not (exact_l1 and marg[i] == 0.0):
                             ctx.excluded("near-tie-row")
                             return True
                         ctx.violation(K + "%s/batch-dependent/%s" % (m, how),
